@@ -4,7 +4,8 @@
    by harness/engine/termbytes.py and applied to the Terminal model here (specs/common/Terminal.tla, as C15 does).
 
    event (every event carries every key):
-     op    "new" (w: terminal width) | "op"
+     op    "new" (w: terminal width, dec: the Output is decorated - FALSE: a PlainFormatter, also on a stream that
+           itself reports ANSI support, as with --no-ansi on a terminal) | "op"
      what  the operation (key of the clause): line | overwrite | clear | clearn | scope-line ...
      line  the text the operation writes (1-character strings, no blanks, unique per trace), <<>> if none
      ind   the indentation in force on that section for that line
@@ -12,30 +13,33 @@
    P.indent.screen: every non-blank row on the screen is one of the lines written so far, behind exactly the
                     indentation that was in force when it was written ("every non-empty line is prefixed by exactly
                     the indentation in force").  Which lines remain on the screen is C15's clause, not claimed here.
+   P.plain.noescape: an undecorated output emits text and newlines only - no escape byte, whatever is rewound.
    A.ops.known:     the bytes are operations the Terminal model interprets (otherwise nothing is claimed).          *)
 EXTENDS Terminal, TraceKit
 
 VARIABLES tid, l,
           term,      \* the terminal as the bytes so far leave it
-          written    \* set of [t, i]: line texts written so far with their indentation
-tvars == <<tid, l, term, written>>
+          written,   \* set of [t, i]: line texts written so far with their indentation
+          dec        \* the output under test is decorated
+tvars == <<tid, l, term, written, dec>>
 T == Traces[tid]
 Ev == T[l]
 
-TInit == tid \in 1..NTraces /\ l = 1 /\ term = TermNew(80) /\ written = {}
+TInit == tid \in 1..NTraces /\ l = 1 /\ term = TermNew(80) /\ written = {} /\ dec = TRUE
 Adv == l' = l + 1 /\ tid' = tid
 Is(op) == l <= Len(T) /\ Ev.op = op
 
 TNew == /\ Is("new") /\ Adv
         /\ Check(tid, l, "P.route.exists", "sections:" \o Ev.res, Ev.res = "ok")
-        /\ term' = TermNew(Ev.w) /\ written' = {}
+        /\ term' = TermNew(Ev.w) /\ written' = {} /\ dec' = Ev.dec
 
 RowOK(row, ws) == \E x \in ws : row = Blanks(x.i) \o x.t
-TOp == /\ Is("op") /\ Adv
+TOp == /\ Is("op") /\ Adv /\ UNCHANGED dec
        /\ LET e == Ev
               ws == IF e.line = <<>> THEN written ELSE written \cup {[t |-> e.line, i |-> e.ind]}
           IN /\ Check(tid, l, "H.line", "", \A k \in 1..Len(e.line) : e.line[k] # Blank)
              /\ written' = ws
+             /\ Check(tid, l, "P.plain.noescape", e.what, ~dec => OnlyPlain(e.ops))
              /\ IF e.res = "ok" /\ AllKnown(e.ops)
                 THEN LET t2 == ApplyOps(term, e.ops)
                          scr == Screen(t2)
@@ -46,7 +50,7 @@ TOp == /\ Is("op") /\ Adv
                      /\ Check(tid, l, "P.indent.screen", e.what \o ":" \o e.res, e.res = "ok")
                      /\ Note(tid, l, "A.ops.known", FALSE)
 
-TDone == /\ l = Len(T) + 1 /\ l' = l + 1 /\ tid' = tid /\ UNCHANGED <<term, written>> /\ Accept(tid)
+TDone == /\ l = Len(T) + 1 /\ l' = l + 1 /\ tid' = tid /\ UNCHANGED <<term, written, dec>> /\ Accept(tid)
 
 TNext == TNew \/ TOp \/ TDone
 TSpec == TInit /\ [][TNext]_tvars
